@@ -58,14 +58,66 @@ Section World.
     linesearch : nat -> E -> list E -> E;
     ls_orth : forall f x0 ds, has_ls f = true ->
       let x := linesearch f x0 ds in
-      inner (vsub x x0) (fst (orc f x)) = 0 /\ forall d, In d ds -> inner d (fst (orc f x)) = 0
+      inner (vsub x x0) (fst (orc f x)) = 0 /\ forall d, In d ds -> inner d (fst (orc f x)) = 0;
+    (* epsilon-subgradients: [epssub f x0] = ((g0, eps), (y, fy)) is what an epsilon-subgradient oracle returns at
+       x0: a vector g0 and an accuracy eps, together with a point y at which g0 is an (exact) subgradient and the
+       value fy there, i.e. the conjugate of f at g0 is <g0, y> - fy.  Specification: (y, g0, fy) is a genuine
+       sample and f(x0) + f^*(g0) - <g0, x0> <= eps, f(x0) being the oracle's value at x0 (for a convex function
+       this says exactly that g0 is an eps-subgradient at x0: C08's theorems eps_subgrad_from_record /
+       eps_subgrad_to_record).  Every world has one (the oracle's own output, eps = 0, y = x0), so no flag. *)
+    epssub : nat -> E -> (E * R) * (E * R);
+    epssub_spec : forall f x0,
+      let g0 := fst (fst (epssub f x0)) in let eps := snd (fst (epssub f x0)) in
+      let y := fst (snd (epssub f x0)) in let fy := snd (snd (epssub f x0)) in
+      Gen f (y, g0, fy) /\ snd (orc f x0) + (inner g0 y - fy) - inner g0 x0 <= eps;
+    (* mirror maps (Bregman gradient steps): [mirror h s] is the point at which the mirror map h has gradient s (the
+       minimiser of <g0, .> + 1/gamma D_h(.; x0) when s = grad h(x0) - gamma g0: C08's theorem
+       bregman_gradient_optimality) together with the value of h there; specification: that point with s is a
+       genuine sample of h *)
+    has_mirror : nat -> bool;
+    mirror : nat -> E -> E * R;
+    mirror_genuine : forall h s, has_mirror h = true -> Gen h (fst (mirror h s), s, snd (mirror h s));
+    (* Bregman proximal steps: [bprox h f gamma s0] = ((x, gx), (fx, hx)) is the minimiser x of
+       f + 1/gamma D_h(.; x0), s0 = grad h(x0), the subgradient gx of f at x singled out by the optimality condition
+       grad h(x) = s0 - gamma gx (C08's theorem bregman_prox_optimality) and the values of f and h at x;
+       specification: (x, gx, fx) is a genuine sample of f and (x, s0 - gamma gx, hx) one of h *)
+    has_bprox : nat -> nat -> bool;
+    bprox : nat -> nat -> R -> E -> (E * E) * (R * R);
+    bprox_genuine : forall h f gamma s0, has_bprox h f = true -> 0 < gamma ->
+      let x := fst (fst (bprox h f gamma s0)) in let gx := snd (fst (bprox h f gamma s0)) in
+      Gen f (x, gx, fst (snd (bprox h f gamma s0))) /\
+      Gen h (x, vsub s0 (vscal gamma gx), snd (snd (bprox h f gamma s0)));
+    (* inexact proximal steps: [iprox f opt gamma x0] = (((w, v, fw), (x, gx, fx)), eps) is what an approximate
+       proximal operator of step gamma > 0 returns at x0: the approximate proximal point x with a subgradient gx and
+       the value fx there, a dual point v with a point w at which v is a subgradient and the value fw there (not
+       used by 'PD_gapII'; for 'PD_gapIII' v is (x0 - x) / gamma), and the accuracy eps reached.  Specification:
+       the samples are genuine and the criterion of the option holds with that eps
+         PD_gapI:    |x - x0 + gamma v|^2 / 2 + gamma (fx - fw - <v, x - w>) <= eps
+         PD_gapII:   |x - x0 + gamma gx|^2 / 2 <= eps
+         PD_gapIII:  gamma (fx - fw - <v, x - w>) <= eps,  v = (x0 - x) / gamma.
+       Every world has one (e.g. x = w = x0 with the oracle's output there), so no flag. *)
+    iprox : nat -> ipopt -> R -> E -> ((E * E * R) * (E * E * R)) * R;
+    iprox_spec : forall f opt gamma x0, 0 < gamma ->
+      let r := iprox f opt gamma x0 in
+      let w := fst (fst (fst (fst r))) in let v := snd (fst (fst (fst r))) in let fw := snd (fst (fst r)) in
+      let x := fst (fst (snd (fst r))) in let gx := snd (fst (snd (fst r))) in let fx := snd (snd (fst r)) in
+      Gen f (x, gx, fx) /\
+      match opt with
+      | PDgapI => Gen f (w, v, fw) /\
+                  nrm2 (vadd (vsub x x0) (vscal gamma v)) / 2 + gamma * (fx - fw - inner v (vsub x w)) <= snd r
+      | PDgapII => nrm2 (vadd (vsub x x0) (vscal gamma gx)) / 2 <= snd r
+      | PDgapIII => Gen f (w, vscal (1 / gamma) (vsub x0 x), fw) /\
+                    gamma * (fx - fw - inner (vscal (1 / gamma) (vsub x0 x)) (vsub x w)) <= snd r
+      end
   }.
 
-  (** the program takes proximal / linear-optimization / line-search steps only on functions of the world that
-      have a proximal operator / a linear minimisation oracle / an exact line search *)
+  (** the program takes proximal / linear-optimization / line-search / Bregman steps only on functions of the world
+      that have a proximal operator / a linear minimisation oracle / an exact line search / a mirror map inverse / a
+      Bregman proximal operator *)
   Definition step_ok (W : world) (o : mop) : bool :=
     match o with
-    | MProx f _ _ => has_prox W f | MLinOpt f _ => has_lmo W f | MLineSearch f _ _ => has_ls W f | _ => true
+    | MProx f _ _ => has_prox W f | MLinOpt f _ => has_lmo W f | MLineSearch f _ _ => has_ls W f
+    | MBregGrad h _ _ _ => has_mirror W h | MBregProx h f _ _ => has_bprox W h f | _ => true
     end.
   Definition steps_ok (W : world) (ops : list mop) : bool := forallb (step_ok W) ops.
 
@@ -103,6 +155,42 @@ Section World.
         let x := linesearch W f (evalP (fst vs) x0) (map (evalP (fst vs)) dirs) in
         (upd (upd (fst vs) (m_np s) x) (S (m_np s)) (fst (orc W f x)),
          upd (snd vs) (m_ne s) (snd (orc W f x)))
+    | MEpsSub f p =>
+        (* the fresh leaf g0 gets the epsilon-subgradient, then as MEval at p, the fresh value leaf epsilon gets the
+           accuracy, the fresh leaves y and fy the point where the conjugate is attained and the value there *)
+        let x := evalP (fst vs) p in
+        let r := epssub W f x in
+        (upd (upd (upd (fst vs) (m_np s) (fst (fst r))) (S (m_np s)) (fst (orc W f x))) (S (S (m_np s))) (fst (snd r)),
+         upd (upd (upd (snd vs) (m_ne s) (snd (orc W f x))) (S (m_ne s)) (snd (fst r))) (S (S (m_ne s))) (snd (snd r)))
+    | MBregGrad h gx0 sx0 gamma =>
+        (* the fresh point leaf gets the point where the mirror map has gradient sx0 - gamma gx0, the fresh value
+           leaf the value of the mirror map there *)
+        let sd := vsub (evalP (fst vs) sx0) (vscal (Q2R gamma) (evalP (fst vs) gx0)) in
+        (upd (fst vs) (m_np s) (fst (mirror W h sd)), upd (snd vs) (m_ne s) (snd (mirror W h sd)))
+    | MBregProx h f sx0 gamma =>
+        (* the fresh leaves x, gx get the Bregman proximal point and the subgradient of f there, the fresh value
+           leaves the values of f and of the mirror map there *)
+        let r := bprox W h f (Q2R gamma) (evalP (fst vs) sx0) in
+        (upd (upd (fst vs) (m_np s) (fst (fst r))) (S (m_np s)) (snd (fst r)),
+         upd (upd (snd vs) (m_ne s) (fst (snd r))) (S (m_ne s)) (snd (snd r)))
+    | MInexactProx f x0 gamma opt =>
+        (* the fresh leaves get the outputs of the approximate proximal operator; for 'PD_gapII' the fresh point leaf e
+           gets the error x - x0 + gamma gx, so that the recorded point x0 - gamma gx + e evaluates to x *)
+        let x0v := evalP (fst vs) x0 in
+        let r := iprox W f opt (Q2R gamma) x0v in
+        let w := fst (fst (fst (fst r))) in let v := snd (fst (fst (fst r))) in let fw := snd (fst (fst r)) in
+        let x := fst (fst (snd (fst r))) in let gx := snd (fst (snd (fst r))) in let fx := snd (snd (fst r)) in
+        match opt with
+        | PDgapI =>
+            (upd (upd (upd (upd (fst vs) (m_np s) v) (S (m_np s)) w) (S (S (m_np s))) x) (S (S (S (m_np s)))) gx,
+             upd (upd (upd (snd vs) (m_ne s) fw) (S (m_ne s)) fx) (S (S (m_ne s))) (snd r))
+        | PDgapII =>
+            (upd (upd (fst vs) (m_np s) (vadd (vsub x x0v) (vscal (Q2R gamma) gx))) (S (m_np s)) gx,
+             upd (upd (snd vs) (m_ne s) fx) (S (m_ne s)) (snd r))
+        | PDgapIII =>
+            (upd (upd (upd (fst vs) (m_np s) x) (S (m_np s)) gx) (S (S (m_np s))) w,
+             upd (upd (upd (snd vs) (m_ne s) fw) (S (m_ne s)) fx) (S (S (m_ne s))) (snd r))
+        end
     end.
 
   Fixpoint wrun (W : world) (ops : list mop) (s : mstate) (vs : (nat -> E) * (nat -> R))
